@@ -25,6 +25,11 @@ def run(ctx):
             n = len(e.get("stops", [])) if isinstance(e.get("stops"), list) else -1
             ctx.violation("gen:%s:%s:%s:n=%d" % (d.get("what"), d.get("id"), e.get("name"), n),
                           "gradient helper: %s" % d.get("what"), gencheck.short(d))
+        elif d.get("diag") == "sel" and d.get("what") == "selector read-back":
+            # the helpers restore the selectors they read from the destination: a destination that reports another CSEL /
+            # NSEL than the decoding machine holds makes the helper leave the selectors other than it found them
+            ctx.violation("gen:read-back:%s" % d.get("id"),
+                          "gradient helper: the destination reports a selector it does not hold (the helper restores what it reads)", gencheck.short(d))
         elif d.get("diag") in ("raster", "vm") and d.get("ev", {}).get("call", {}).get("op") == "ClosePathEndPath":
             # "when rendered": the path painted with the written gradient is drawn once over the target rectangle with the
             # gradient image aligned to the rectangle's corner, and with the paint the registers prescribe
